@@ -530,14 +530,18 @@ class Hugr(Mapping[Node, NodeData], Generic[OpVarCov]):
         return (p.node for p in self.linked_ports(node.inp(-1)))
 
     def _node_links(
-        self, node: ToNode, links: dict[_SubPort[P], _SubPort[K]]
+        self,
+        node: ToNode,
+        links: dict[_SubPort[P], _SubPort[K]],
+        direction: Direction,
     ) -> Iterable[tuple[P, list[K]]]:
         try:
-            direction = next(iter(links.keys())).port.direction
-        except StopIteration:
+            num_ports = self.num_ports(node, direction)
+        except KeyError:
+            # not a node of this graph (e.g. deleted): no ports, no links
             return
         # iterate over known offsets
-        for offset in range(self.num_ports(node, direction)):
+        for offset in range(num_ports):
             port = cast(P, node.port(offset, direction))
             yield port, list(self._linked_ports(port, links))
 
@@ -558,7 +562,7 @@ class Hugr(Mapping[Node, NodeData], Generic[OpVarCov]):
             >>> list(df.hugr.outgoing_links(df.input_node))
             [(OutPort(Node(1), 0), [InPort(Node(2), 0), InPort(Node(2), 1)])]
         """
-        return self._node_links(node, self._links.fwd)
+        return self._node_links(node, self._links.fwd, Direction.OUTGOING)
 
     def incoming_links(self, node: ToNode) -> Iterable[tuple[InPort, list[OutPort]]]:
         """Iterator over incoming links to a given node.
@@ -577,7 +581,7 @@ class Hugr(Mapping[Node, NodeData], Generic[OpVarCov]):
             >>> list(df.hugr.incoming_links(df.output_node))
             [(InPort(Node(2), 0), [OutPort(Node(1), 0)]), (InPort(Node(2), 1), [OutPort(Node(1), 0)])]
         """  # noqa: E501
-        return self._node_links(node, self._links.bck)
+        return self._node_links(node, self._links.bck, Direction.INCOMING)
 
     def num_incoming(self, node: Node) -> int:
         """The number of incoming links to a `node`.
@@ -588,7 +592,7 @@ class Hugr(Mapping[Node, NodeData], Generic[OpVarCov]):
             >>> df.hugr.num_incoming(df.output_node)
             1
         """
-        return sum(1 for _ in self.incoming_links(node))
+        return sum(len(srcs) for _, srcs in self.incoming_links(node))
 
     def num_outgoing(self, node: ToNode) -> int:
         """The number of outgoing links from a `node`.
@@ -599,7 +603,7 @@ class Hugr(Mapping[Node, NodeData], Generic[OpVarCov]):
             >>> df.hugr.num_outgoing(df.input_node)
             1
         """
-        return sum(1 for _ in self.outgoing_links(node))
+        return sum(len(dsts) for _, dsts in self.outgoing_links(node))
 
     # TODO: num_links and _linked_ports
 
